@@ -48,3 +48,16 @@ func init() {
 			Old: "\tvalue, err := b.ldb.Get(key, nil) // value == name\n\tif err != nil || string(value) != name {\n\t\treturn nil\n\t}", New: "\tvalue, err := b.ldb.Get(key, nil) // value == name\n\tif err != nil {\n\t\treturn nil\n\t}\n\tif string(value) != name {\n\t\treturn nil\n\t}"},
 	)
 }
+
+func init() {
+	variants["C19"] = append(variants["C19"],
+		variant{Name: "deleteBucket collects each nested bucket's entries in a batch of its own that nobody writes (seed C02-r9a)", Kill: true, Rule: "C19-BATCH", File: fLDB,
+			Old: "\t\terr = deleteBucket(sub.(*LDBBucket), batch)\n", New: "\t\tsubBatch := new(leveldb.Batch)\n\t\terr = deleteBucket(sub.(*LDBBucket), subBatch)\n"},
+		variant{Name: "Clear writes a fresh batch instead of the one it filled", Kill: true, Rule: "C19-BATCH", File: fLDB,
+			Old: "\t\t\t\"num\":    batch.Len(),\n\t\t})\n\n\treturn b.tx.tr.Write(batch, nil)", New: "\t\t\t\"num\":    batch.Len(),\n\t\t})\n\n\treturn b.tx.tr.Write(new(leveldb.Batch), nil)"},
+		variant{Name: "deleteBucket writes each nested bucket's own batch after the descent", Kill: false, File: fLDB,
+			Old: "\t\terr = deleteBucket(sub.(*LDBBucket), batch)\n\t\tif err != nil {\n\t\t\treturn err\n\t\t}\n", New: "\t\tsubBatch := new(leveldb.Batch)\n\t\terr = deleteBucket(sub.(*LDBBucket), subBatch)\n\t\tif err != nil {\n\t\t\treturn err\n\t\t}\n\t\tif err = b.tx.tr.Write(subBatch, nil); err != nil {\n\t\t\treturn err\n\t\t}\n"},
+		variant{Name: "DeleteBucket's batch comes from a constructor helper and is written by a flush helper", Kill: false, File: fLDB,
+			Old: "\tbatch := new(leveldb.Batch)\n\terr := deleteBucket(sub.(*LDBBucket), batch)\n\tif err != nil {\n\t\treturn err\n\t}\n\treturn b.tx.tr.Write(batch, nil)\n}\n", New: "\tbatch := newDeleteBatch()\n\terr := deleteBucket(sub.(*LDBBucket), batch)\n\tif err != nil {\n\t\treturn err\n\t}\n\treturn b.flush(batch)\n}\n\nfunc newDeleteBatch() *leveldb.Batch { return new(leveldb.Batch) }\n\nfunc (b *LDBBucket) flush(batch *leveldb.Batch) error { return b.tx.tr.Write(batch, nil) }\n"},
+	)
+}
